@@ -36,14 +36,14 @@ UNS = ['unpicklable', 'unpicklable_deep', 'unpicklable_badrepr']
 
 FORMULAS = {
     'C03': (['StreamShape', 'OneResultPerJob', 'AckCarries', 'ResultOnlyAfterAccept',
-             'NackHonoured', 'CountsExecutedOnly', 'QuotaRespected', 'AcksAnswered'],
+             'NackHonoured', 'CountsExecutedOnly', 'QuotaRespected', 'AcksAnswered', 'RunHasResult'],
             ['CancelRefused', 'EncodingErrorReported']),
     'C08': (['ExitCallbackOnce', 'SignalLeadsOut'],
             ['SignalMeansNoMoreJobs', 'SignalMeansNoGuard']),
     'C09': (['QuotaRespected', 'QuotaExitStatus', 'RecycleOnlyWhenDue', 'CountsExecutedOnly'],
             ['ExitAfterConsumed']),
-    'C12': (['StreamShape', 'OneResultPerJob'], ['EncodingErrorReported']),
-    'C02': (['StreamShape', 'OneResultPerJob', 'ResultOnlyAfterAccept'], []),
+    'C12': (['StreamShape', 'OneResultPerJob', 'RunHasResult'], ['EncodingErrorReported']),
+    'C02': (['StreamShape', 'OneResultPerJob', 'ResultOnlyAfterAccept', 'RunHasResult', 'CountsExecutedOnly'], []),
 }
 
 SCEN = {
